@@ -849,13 +849,14 @@ def sliding_window_view(x, window_shape, axis=None, automatic_rechunk=True):
 
     # Ensure that each chunk is big enough to leave at least a size-1 chunk
     # after windowing (this is only really necessary for the last chunk).
+    # Only the windowed axes need this (a window of length 1 still needs
+    # non-empty chunks; the other axes may be short or even empty).
+    windowed = set(axis)
     safe_chunks = list(
-        ensure_minimum_chunksize(d + 1, c) for d, c in zip(depths, x.chunks)
+        ensure_minimum_chunksize(d + 1, c) if i in windowed else c
+        for i, (d, c) in enumerate(zip(depths, x.chunks))
     )
     if automatic_rechunk:
-        safe_chunks = [
-            s if d != 0 else c for d, c, s in zip(depths, x.chunks, safe_chunks)
-        ]
         # safe chunks is our output chunks, so add the new dimensions
         safe_chunks.extend([(w,) for w in window_shape])
         max_chunk = reduce(mul, map(max, x.chunks))
